@@ -73,7 +73,8 @@ def run_case(case, ctx):
         outdir.mkdir()
         concluded = rng.random() < 0.6
         where = rng.choice(["stdout", "inside", "outside"])
-        args = ["--no-multiprocessing", "--root", str(root), "spdx"]
+        cwd, gargs = trees.place_lint(rng, root)
+        args = ["--no-multiprocessing"] + gargs + ["spdx"]
         if concluded:
             args.append("--add-license-concluded")
             if rng.random() < 0.5:
@@ -91,7 +92,7 @@ def run_case(case, ctx):
             args += ["-o", str(target)]
         # lint first (does not write), then spdx
         rl = run_cli(["--no-multiprocessing", "--root", str(root), "lint", "--json"], cwd=str(root))
-        r = run_cli(args, cwd=str(root))
+        r = run_cli(args, cwd=cwd)
         res.n = 1
         if r.escaped or rl.escaped:
             res.violation("escaped-exception", f"{r.exc_type or rl.exc_type} left main()", tb=r.exc_tb or rl.exc_tb, recipe=recipe)
